@@ -13,7 +13,7 @@ from sa.layout import Layout
 from .c07 import struct_table
 from .common import firmware, doc
 
-TECHNIQUE = ("must-pass-through (dominance) of every normal exit of the two verify commands by the "
+TECHNIQUE = ("must-pass-through (dominance, path rules on the last test of each header family) of every normal exit of the two verify commands by the "
              "full list of checks, each failing edge leading only to AdminError; provenance expansion "
              "of compared and printed values to slices of verified messages; struct/regex/constant "
              "agreement with docs/attestation.md and the firmware headers")
